@@ -237,6 +237,30 @@ impl<W: WorldOps> Engine<W> {
         }
     }
 
+    /// destroy() with a direct handle that a later removal has invalidated.
+    pub fn op_destroy_stale_direct(&mut self, wi: usize, di: usize, level: usize, kind: usize) {
+        let d = self.sl(wi).m.directs[di].clone();
+        let a = self.archs[d.arch];
+        let dr = self.sl(wi).m.archs[d.arch].removals - d.removals;
+        if dr == 0 || (self.wrapping && dr % (u32::MAX as u64) == 0) {
+            return;
+        }
+        let key = Key::direct(kind, d.handle);
+        self.rep.log_op(format!("w{} destroy-stale-direct arch={} {:?} level={} key={}", self.sl(wi).m.id, a.name(), d.handle, DESTROY_NAMES[level], KEY_KINDS[kind]));
+        self.rep.count("op.destroy_stale_direct");
+        let before: Vec<usize> = (0..self.archs.len()).map(|i| self.archs[i].len(&self.sl(wi).w)).collect();
+        let res = {
+            let s = self.worlds[wi].as_mut().unwrap();
+            guard(|| a.destroy(&mut s.w, level, key))
+        };
+        let after: Vec<usize> = (0..self.archs.len()).map(|i| self.archs[i].len(&self.sl(wi).w)).collect();
+        match res {
+            Ok(DestroyOut::Absent) if before == after => {}
+            Ok(o) => self.viol(Some(wi), &["C09", "C01"], "destroy-stale-direct", format!("{}: {} with stale {:?} ({} removals since issue) returned {:?}; lens {:?} -> {:?}", a.name(), DESTROY_NAMES[level], d.handle, dr, o, before, after)),
+            Err(c) => self.unexpected_panic(Some(wi), "destroy with a stale direct handle", &c),
+        }
+    }
+
     /// Runs the probe suite on world `wi`. `touched` are uids the last operation involved.
     pub fn probe(&mut self, wi: usize, full: bool, touched: &[usize], pc: &mut ProbeCounts) {
         if self.rep.failed() {
